@@ -112,7 +112,7 @@ fn main() {
                 fs.push(Finding { sig: format!("C18/c18_translation/{}", v.oracle), v, replay: j });
             }
             rep.add_findings(fs);
-            let s = c18::run_sections(seed, sc(60.0, 1500.0));
+            let s = c18::run_sections(seed, sc(240.0, 3000.0));
             let cov = rep.engine("c18_sections");
             cov.evaluations = s.cases;
             cov.events = s.cases;
@@ -121,6 +121,8 @@ fn main() {
                 let _ = cov.nontrivial.insert(*h);
             }
             cov.sample(Json::from(s.log.first().cloned().unwrap_or_default()));
+            let _ = cov.counters.insert("zero_timeout_pools_built_without_runtime".into(), s.zero_timeout_pools_built);
+            let _ = cov.counters.insert("configs_without_runtime".into(), s.log.iter().filter(|l| l.contains("runtime=false")).count() as u64);
             let mut fs = Vec::new();
             for (v, j) in s.violations {
                 fs.push(Finding { sig: format!("C18/c18_sections/{}", v.oracle), v, replay: j });
